@@ -45,44 +45,18 @@ Proof. exact prelude_table_count. Qed.
 
 (* ---- undefined references ---- *)
 
-(* what the walker decides, exactly: first reference in source order that is no socket, no
-   prelude name, no generic parameter of its rule, and not the IDENTIFIER of any rule head *)
-Theorem C12_refcheck_code_spec : forall d i j n,
-  refcheck d = Some (i, j, n) <-> FirstUnresolvedC d i j n.
-Proof. exact refcheck_code_spec. Qed.
+(* the walker reports exactly the FIRST reference in source order that is no $socket, no
+   standard-prelude name, no generic parameter of its own rule, and not the name of any rule
+   ("$x" / "$$x" heads do not define x) *)
+Theorem C12_refcheck_spec : forall d i j n,
+  refcheck d = Some (i, j, n) <-> FirstUnresolved d i j n.
+Proof. exact refcheck_spec. Qed.
 
-Theorem C12_refcheck_code_none : forall d,
-  refcheck d = None <-> forall i j, ~ UnresolvedAtC d i j.
-Proof. exact refcheck_code_none. Qed.
+Theorem C12_refcheck_none_iff : forall d,
+  refcheck d = None <-> forall i j, ~ UnresolvedAt d i j.
+Proof. exact refcheck_none_iff. Qed.
 
-(* FULL STATEMENTS (refuted below):
-     forall d i j n, refcheck d = Some (i, j, n) <-> FirstUnresolved d i j n
-     forall d,       refcheck d = None <-> forall i j, ~ UnresolvedAt d i j            *)
-Theorem C12_refcheck_spec_partial : forall d i j n, kf_socket_shadow d = false ->
-  (refcheck d = Some (i, j, n) <-> FirstUnresolved d i j n).
-Proof. exact refcheck_spec_partial. Qed.
-
-Theorem C12_refcheck_none_iff_partial : forall d, kf_socket_shadow d = false ->
-  (refcheck d = None <-> forall i j, ~ UnresolvedAt d i j).
-Proof. exact refcheck_none_iff_partial. Qed.
-
-(* known finding: "$a = int  b = a" - a is unresolved, the walker accepts *)
-Theorem C12_refcheck_spec_refuted : exists d i j n, FirstUnresolved d i j n /\ refcheck d = None.
-Proof. exact refcheck_spec_refuted. Qed.
-
-(* the excluded class is exactly: some reference is unresolved but its identifier is the
-   identifier of a socket-prefixed rule head *)
-Theorem C12_kf_socket_shadow_iff : forall d,
-  kf_socket_shadow d = true <->
-  exists r x, In r d /\ In x (rrefs r) /\ Unresolved d r x /\ ~ UnresolvedC d r x.
-Proof. exact kf_socket_shadow_iff. Qed.
-
-(* unconditionally: whatever the walker reports is an unresolved reference *)
-Theorem C12_refcheck_sound : forall d i j n,
-  refcheck d = Some (i, j, n) -> exists r x, ref_at d i j r x /\ Unresolved d r x /\ n = xid x.
-Proof. exact refcheck_sound. Qed.
-
-(* the executable specification used as second oracle is the specification *)
+(* the executable specification used as second oracle is the specification, and the model equals it *)
 Theorem C12_spec_refcheck_spec : forall d i j n,
   spec_refcheck d = Some (i, j, n) <-> FirstUnresolved d i j n.
 Proof. exact spec_refcheck_spec. Qed.
@@ -90,6 +64,9 @@ Proof. exact spec_refcheck_spec. Qed.
 Theorem C12_spec_refcheck_none : forall d,
   spec_refcheck d = None <-> forall i j, ~ UnresolvedAt d i j.
 Proof. exact spec_refcheck_none. Qed.
+
+Theorem C12_refcheck_eq_spec : forall d, refcheck d = spec_refcheck d.
+Proof. exact refcheck_eq_spec. Qed.
 
 (* ---- the entry points ---- *)
 Theorem C12_plain_parse_spec : forall d,
@@ -100,21 +77,13 @@ Theorem C12_plain_parse_spec : forall d,
   end.
 Proof. exact plain_parse_spec. Qed.
 
-Theorem C12_checked_parse_spec_partial : forall d, kf_socket_shadow d = false ->
+Theorem C12_checked_parse_spec : forall d,
   match checked_parse d with
   | VDup i n => dup_verdict d i n
   | VUndef i j n => no_dup d /\ FirstUnresolved d i j n
   | VOk k => k = length d /\ no_dup d /\ forall i j, ~ UnresolvedAt d i j
   end.
-Proof. exact checked_parse_spec_partial. Qed.
-
-Theorem C12_checked_parse_code_spec : forall d,
-  match checked_parse d with
-  | VDup i n => dup_verdict d i n
-  | VUndef i j n => no_dup d /\ FirstUnresolvedC d i j n
-  | VOk k => k = length d /\ no_dup d /\ forall i j, ~ UnresolvedAtC d i j
-  end.
-Proof. exact checked_parse_code_spec. Qed.
+Proof. exact checked_parse_spec. Qed.
 
 (* ---- non-vacuity ---- *)
 Local Open Scope N_scope.
@@ -139,11 +108,11 @@ Example C12_example_scope :
   = Some (1%nat, 0%nat, [116]).
 Proof. vm_compute. reflexivity. Qed.
 
-Example C12_example_partial_hyp : kf_socket_shadow
-  [ mkRule 0 [97] true [[116]] [mkRef false [116]]; mkRule 1 [98] false [] [mkRef false [122]] ] = false.
+(* regression witness of the repaired finding (a8c9ab3): $a = int  b = a  is rejected, naming a *)
+Example C12_example_socket_head : refcheck socket_head_doc = Some (1%nat, 0%nat, [97]).
 Proof. vm_compute. reflexivity. Qed.
 
 Example C12_example_render :
-  c12_render refuted_doc =
-  [79; 75; 32; 50; 9; 79; 75; 32; 50; 9; 85; 78; 68; 69; 70; 32; 49; 32; 48; 32; 97; 9; 49].
+  c12_render socket_head_doc =
+  [79; 75; 32; 50; 9; 85; 78; 68; 69; 70; 32; 49; 32; 48; 32; 97; 9; 85; 78; 68; 69; 70; 32; 49; 32; 48; 32; 97; 9; 49].
 Proof. vm_compute. reflexivity. Qed.
